@@ -456,7 +456,8 @@ ADDENDA = {
             " wf_refs speaks about identifiers only (five conditions, spelled out in C13.v); the model's reading and the heap "
             "reading coincide when every pointer targets the map's own entry."),
     "C14": (INT64 % ("C14_int64 (C14_int64_range: the condition holds for every d >= 0)", "C14_int64_wraps: d within 1 ms of MinInt64")
-            + " Successive calls on the same value are judged call by call (the filler must be a new cue).", ""),
+            + " Successive calls on the same value are judged call by call (the filler must be a new cue)."
+            " C14_idempotent: forcing d again on a list already forced to d with the filler changes nothing (no second filler).", ""),
     "C15": (" C15_int64: inside the property's domain the int64/float64 model of the code (wrapping subtraction, conversion to int64) "
             "equals the model above and the result is an int64 value; the float-to-int64 conversion outside int64 follows amd64 "
             "(Go leaves it implementation-defined) and rests on the bit-for-bit comparison, not on a proof.", ""),
